@@ -116,8 +116,10 @@ fn fed_exactly(n: usize, v: &[u8; 1000]) {
 }
 
 //@ ob: C02.O3d
-//@ tier: thorough
-//@ cap: 1800
+//@ tier: quick
+//@ cap: 800
+//@ rss: 0.5
+//@ time: 7
 //@ also: C03
 //@ desc: structure of hash_immutable's SHA-1 input at the size boundaries: for values of 0, 1, 999 and 1000 bytes the hasher is fed one formatted length prefix followed by the whole value, verbatim and untruncated (first and last value byte checked), in a single digest whose bytes are returned; the text of the prefix ("<len>:") is pinned by the repo's test_hash_immutable and outside this obligation
 //@ bounds: the four stated lengths (concrete), value bytes symbolic at the first and last positions; SHA-1 itself abstracted (Sha1::update records, Sha1::digest uninterpreted: bound by C02.O3a-c); unwind 8
